@@ -84,22 +84,27 @@ theorem readDataPayload_eq (w : UInt16) (h : DataHdr) (s : Bytes) (start : Nat) 
   unfold readDataPayload
   have hrem : (s.drop start).length = s.length - start := by simp
   have hhl : 2 + (s.length - (s.length - start)) = 2 + start := by omega
+  simp only [bind_apply, len_apply, len_bytes, hrem]
+  rw [subM_ok (by omega)]
+  simp only [hhl]
   cases hm : h.mlen with
   | none =>
-    simp only [bind_apply, len_apply, len_bytes, hrem, M.ite_apply, fail_apply, pure_apply]
+    simp only [bind_apply, M.ite_apply, fail_apply, pure_apply]
     by_cases h0 : s.length - start = 0
     · rw [if_pos h0, if_pos h0]
     · rw [if_neg h0, if_neg h0, ← hrem, readBytes_all]
   | some l =>
-    simp only [bind_apply, len_apply, len_bytes, hrem, hhl, M.ite_apply, fail_apply, pure_apply]
-    by_cases c1 : l.toNat < 2 + start ∨ l.toNat - (2 + start) > s.length - start
-    · have : (decide (l.toNat < 2 + start) || decide (l.toNat - (2 + start) > s.length - start)) = true := by simpa using c1
-      rw [this, if_pos rfl, if_pos c1]
-    · have : (decide (l.toNat < 2 + start) || decide (l.toNat - (2 + start) > s.length - start)) = false := by simpa using c1
-      rw [this, if_neg (by simp), if_neg c1]
-      by_cases c2 : l.toNat - (2 + start) = 0
-      · rw [if_pos c2, if_pos c2]
-      · rw [if_neg c2, if_neg c2, readBytes_ok _ (by rw [hrem]; omega), List.drop_drop]
+    simp only [bind_apply, M.ite_apply, fail_apply, pure_apply]
+    by_cases c0 : l.toNat < 2 + start
+    · rw [if_pos c0, if_pos (Or.inl c0)]
+    rw [if_neg c0, subM_ok (by omega)]
+    simp only []
+    by_cases c1 : l.toNat - (2 + start) > s.length - start
+    · rw [if_pos c1, if_pos (Or.inr c1)]
+    rw [if_neg c1, if_neg (show ¬ (l.toNat < 2 + start ∨ l.toNat - (2 + start) > s.length - start) by omega)]
+    by_cases c2 : l.toNat - (2 + start) = 0
+    · rw [if_pos c2, if_pos c2]
+    · rw [if_neg c2, if_neg c2, readBytes_ok _ (by rw [hrem]; omega), List.drop_drop]
 
 /-- data messages: the three blocks refine the positional reading -/
 theorem decodeData_view (w : UInt16) (s : Bytes) :
@@ -226,7 +231,8 @@ theorem decodeControlCore_view (w : UInt16) (s : Bytes) :
   rw [if_neg h6]
   by_cases h7 : l > body.length + 12
   · rw [if_pos h7, if_pos (show l < 12 ∨ l > body.length + 10 + 2 from Or.inr (by omega))]; rfl
-  rw [if_neg h7, if_neg (show ¬ (l < 12 ∨ l > body.length + 10 + 2) by omega)]
+  rw [if_neg h7, if_neg (show ¬ (l < 12 ∨ l > body.length + 10 + 2) by omega), subM_ok (by omega)]
+  simp only []
   have hle : l - 12 ≤ body.length := by omega
   rw [inSub_ok (ε' := List DErr) (greedy : M Bytes DErr (List Res)) hle]
   obtain ⟨rs, r, hg, hv⟩ := greedy_view (body.take (l - 12))
